@@ -161,10 +161,14 @@ func (c *Ctx) LenOf(v ssa.Value) Lin {
 			return c.LenOf(x.Call.Args[0])
 		}
 		// h.Sum(nil) has length h.Size() (stdlib contract of hash.Hash)
-		if n == "(hash.Hash).Sum" && len(x.Call.Args) == 1 && guard.IsNilConst(x.Call.Args[0]) {
+		if n == "(hash.Hash).Sum" && len(x.Call.Args) == 1 {
 			a := "Size(" + c.name(x.Call.Value) + ")"
 			c.nonneg[a] = true
-			return atom(a)
+			if guard.IsNilConst(x.Call.Args[0]) {
+				return atom(a)
+			}
+			// h.Sum(b) appends the digest to b
+			return c.LenOf(x.Call.Args[0]).add(atom(a), 1)
 		}
 		// a module function all of whose returns have the same constant length
 		if callee := x.Call.StaticCallee(); callee != nil && callee.Blocks != nil && callee.Signature.Results().Len() == 1 {
